@@ -353,15 +353,25 @@ func TestVerif_C11_Mutations(t *testing.T) {
 			func(o reflect.Value) reflect.Value { return reflect.ValueOf(o.Interface().(*Conf).Clone()) }},
 		{"Path.Clone", func() reflect.Value { return reflect.ValueOf(vf11FullPath()) },
 			func(o reflect.Value) reflect.Value { return reflect.ValueOf(o.Interface().(*Path).Clone()) }},
+		// a configuration as it runs: decoded by the real decoders and validated (nil optional fields,
+		// empty lists, paths resolved by Validate)
+		{"Conf.Clone", func() reflect.Value { return reflect.ValueOf(vf11Live(t)) },
+			func(o reflect.Value) reflect.Value { return reflect.ValueOf(o.Interface().(*Conf).Clone()) }},
+		{"Path.Clone", func() reflect.Value { return reflect.ValueOf(vf11Live(t).Paths["cam1"]) },
+			func(o reflect.Value) reflect.Value { return reflect.ValueOf(o.Interface().(*Path).Clone()) }},
 	}
 	realized := map[string]bool{}
-	for _, tg := range targets {
+	for ti, tg := range targets {
+		origin := "populated"
+		if ti >= 2 {
+			origin = "validated"
+		}
 		orig := tg.build()
 		clean := vf08Hash(vf08Dump(orig))
 		// is the clone equal to the original at all (the canonical dump follows pointers and interfaces)
 		cl0 := tg.clone(orig)
 		od, cd := vf08Dump(orig), vf08Dump(cl0)
-		out.Emit(map[string]any{"rec": "cloneequal", "target": tg.name, "equal": od == cd,
+		out.Emit(map[string]any{"rec": "cloneequal", "target": tg.name, "origin": origin, "equal": od == cd,
 			"firstDifference": vf11FirstDiff(od, cd)})
 		var positions []vf11Pos
 		vf11Walk(cl0.Elem(), nil, "", false, func(p vf11Pos) { positions = append(positions, p) })
@@ -395,7 +405,7 @@ func TestVerif_C11_Mutations(t *testing.T) {
 					readAfter = vf08Short(vf08Dump(ov2))
 				}
 				rec := map[string]any{
-					"rec": "mutation", "target": tg.name, "path": pos.path(), "shape": pos.shape(), "kind": pos.kind, "op": op,
+					"rec": "mutation", "target": tg.name, "origin": origin, "path": pos.path(), "shape": pos.shape(), "kind": pos.kind, "op": op,
 					"through": pos.through, "top": pos.steps[0].name,
 					"origBefore": clean, "origAfter": vf08Hash(after), "readBefore": readBefore, "readAfter": readAfter,
 					"shared": shared,
@@ -410,7 +420,7 @@ func TestVerif_C11_Mutations(t *testing.T) {
 				}
 			}
 		}
-		out.Emit(map[string]any{"rec": "summary", "target": tg.name, "positions": npos, "records": nrec})
+		out.Emit(map[string]any{"rec": "summary", "target": tg.name, "origin": origin, "positions": npos, "records": nrec})
 	}
 	var missing []string
 	for sh := range tb.shapes {
